@@ -62,13 +62,20 @@ def finalize(out, offgrid):
         elif isinstance(x, (list, tuple)):
             for v in x:
                 walk(v)
+    # the INPUT (abstract WBS, tabulated capacities) decides whether the case is on the dyadic grid; on the grid every
+    # float operation of the schedulers is exact, so an OUTPUT that is not a multiple of 1/8 is a deviation of the
+    # implementation (e.g. a rounding of the work still to place): the case is kept, scaled by a larger K
+    walk({'w': out.get('w'), 'rs': out.get('rs')})
+    if not offgrid and any((f * 8).denominator != 1 for f in fr):
+        raise OffGrid('amount not a multiple of 1/8')
+    del fr[:]
     walk(out)
     K = 8
     for f in fr:
         if f.denominator > K:
             K = f.denominator * (K // math.gcd(K, f.denominator))
     if not offgrid and K != 8:
-        raise OffGrid('amount not a multiple of 1/8')
+        out['output_left_grid'] = True
     if K > 2 ** 120:
         raise OffGrid('amounts need a scale above 2^120')
 
@@ -282,6 +289,26 @@ def run_case(case):
                 rejected += 1
         out['links_rejected'] = rejected
 
+        if case.get('outcome_only'):
+            # robustness stream (C14): inputs outside the domain of the model (e.g. calendars whose validity bounds
+            # carry a time of day); only the outcome class of calc is observed
+            kw = {'resources': list(supplied.values()), 'balance_resources': case['balance']}
+            sched0 = ForwardScheduler(start=from_us(case['pbound']), **kw) if fwd else BackwardScheduler(end=from_us(case['pbound']), **kw)
+            signal.signal(signal.SIGALRM, _alarm)
+            signal.alarm(3 if BUDGET['timeouts'] >= 2 else 30)
+            try:
+                sched0.calc(wbs)
+                res = {'outcome_only': True, 'outcome': 0}
+            except Timeout:
+                BUDGET['timeouts'] += 1
+                res = {'outcome_only': True, 'outcome': 20}
+            except BaseException as ex:  # noqa
+                res = {'outcome_only': True, 'outcome': exc_code(ex), 'exc': '%s: %s' % (type(ex).__name__, str(ex)[:200])}
+            finally:
+                signal.alarm(0)
+            res['links_rejected'] = rejected
+            return res
+
         # ---- abstract input, orders as the scheduler's clone has them
         members = list(wbs.tasks)
         clone = wbs.clone()
@@ -289,10 +316,16 @@ def run_case(case):
         if [t.id for t in members] != [t.id for t in cm]:
             raise OffGrid('clone order differs')   # C10's business; the scheduler model needs it
         cix = {id(t): i for i, t in enumerate(cm)}
+        mix = {id(t): i for i, t in enumerate(members)}
+        # The abstract input describes the WBS THAT WAS HANDED TO calc: hierarchy and dependency links are read from
+        # the original tasks.  Only the ORDER inside the dependency lists is taken from the scheduler's own copy
+        # (clone() re-appends mirror entries and the pass visits prerequisites in that order); a link that the copy
+        # has lost, or gained, is therefore still part of (absent from) the input, and the oracles judge the result
+        # against the real dependencies.
         exts = []
-        for c in cm:
-            for o in list(c.predecessors) + list(c.successors):
-                if id(o) not in cix and id(o) not in [id(e) for e in exts]:
+        for t in members:
+            for o in list(t.predecessors) + list(t.successors):
+                if id(o) not in mix and id(o) not in [id(e) for e in exts]:
                     exts.append(o)
         eix = {id(o): len(cm) + j for j, o in enumerate(exts)}
         res_names = []
@@ -301,18 +334,32 @@ def run_case(case):
                 res_names.append(t.resource)
         res_index = {n: i for i, n in enumerate(res_names)}
         w = []
+        copy_differs = []
         for t, c in zip(members, cm):
-            def ix(o):
-                return cix[id(o)] if id(o) in cix else eix[id(o)]
+            def oix(o):
+                return mix[id(o)] if id(o) in mix else eix[id(o)]
+
+            def cpos(o):
+                return cix[id(o)] if id(o) in cix else eix.get(id(o))
+
+            def merged(orig, copy, what):
+                orig_ix = [oix(o) for o in orig]
+                copy_ix = [cpos(o) for o in copy]
+                if sorted(map(str, orig_ix)) != sorted(map(str, copy_ix)):
+                    copy_differs.append('%s of task %r: %r in the WBS, %r in its copy' % (what, t.id, orig_ix, copy_ix))
+                return [x for x in copy_ix if x in orig_ix] + [x for x in orig_ix if x not in copy_ix]
             w.append({
-                'parent': cix[id(c.parent)] if c.parent is not None else None,
-                'children': [cix[id(ch)] for ch in c.children],
-                'preds': [ix(o) for o in c.predecessors], 'succs': [ix(o) for o in c.successors],
+                'parent': mix[id(t.parent)] if t.parent is not None else None,
+                'children': [mix[id(ch)] for ch in t.children],
+                'preds': merged(t.predecessors, c.predecessors, 'predecessors'),
+                'succs': merged(t.successors, c.successors, 'successors'),
                 'ext': False, 'milestone': bool(t.milestone), 'res': res_index[t.resource],
                 'est': eighths(t.estimate), 'spent': eighths(t.spent),
                 'start': to_us(t.start), 'end': to_us(t.end), 'min_start': to_us(getattr(t, 'min_start', None)),
                 'id': t.id,
             })
+        if copy_differs:
+            out['copy_differs'] = copy_differs[:5]
         for o in exts:
             w.append({'parent': None, 'children': [], 'preds': [], 'succs': [], 'ext': True, 'milestone': bool(o.milestone),
                       'res': 0, 'est': eighths(o.estimate), 'spent': eighths(o.spent),
